@@ -48,6 +48,15 @@ TYPES = ["rsa", "ecdsa256", "ecdsa384", "ecdsa521", "ed25519"]
 OWN_NAME = {"rsa": "ssh-rsa", "ecdsa256": "ecdsa-sha2-nistp256", "ecdsa384": "ecdsa-sha2-nistp384",
             "ecdsa521": "ecdsa-sha2-nistp521", "ed25519": "ssh-ed25519"}
 CURVE_BITS = {"ecdsa256": 256, "ecdsa384": 384, "ecdsa521": 521}
+# private scalars whose public point has a SHORT coordinate (leading zero octets in the fixed-width encoding):
+# (scalar, coordinate, octets short).  Found once by search over small scalars with cryptography's
+# derive_private_key; KeyPool re-derives and re-checks them.  Random keys practically never have >= 2
+# (probability 2^-15 for P-256/384, 2^-8 for P-521).
+SHORT_SCALARS = {
+    "ecdsa256": [(379, "x", 1), (43, "y", 1), (40393, "x", 2), (2376, "y", 2)],
+    "ecdsa384": [(197, "x", 1), (176, "y", 1), (14971, "x", 2), (93150, "y", 2)],
+    "ecdsa521": [(1, "x", 1), (2, "y", 1), (273, "x", 2), (73, "y", 2), (10735, "x", 3)],
+}
 
 
 def family(t):
@@ -102,6 +111,7 @@ class KeyPool:
             bundled.setdefault(rec[0], []).append(_load_bundled(*rec))
         self.bundled = bundled
         self.universes = {}
+        self.short_roots = {}
         # RSA: one universe of freshly generated pairs per size, then bundled pairs
         u = []
         for bits in rsa_bits:
@@ -113,6 +123,8 @@ class KeyPool:
             u = [(self._gen_ecdsa(t), self._gen_ecdsa(t)) for _ in range(generated_universes)]
             b = bundled[t]
             u += [(b[0], b[1]), (b[-1], self._gen_ecdsa(t))]
+            self.short_roots[t] = [self._short_ecdsa(t, *rec) for rec in SHORT_SCALARS[t]]
+            u += [(r, u[0][1]) for r in self.short_roots[t]]
             self.universes[t] = u
         b = bundled["ed25519"]
         self.universes["ed25519"] = [(b[0], b[1]), (b[2], b[3]), (b[4], b[5]), (b[1], b[4])]
@@ -138,6 +150,19 @@ class KeyPool:
         k = paramiko.ECDSAKey.generate(bits=CURVE_BITS[t])
         r = Root(t, "ECDSAKey.generate(bits=%d)" % CURVE_BITS[t], priv=k.signing_key, gen_obj=k)
         r.pub_id = _pub_id(k.signing_key)
+        return r
+
+    def _short_ecdsa(self, t, scalar, coord, octets):
+        from cryptography.hazmat.primitives.asymmetric import ec
+        curve = {"ecdsa256": ec.SECP256R1, "ecdsa384": ec.SECP384R1, "ecdsa521": ec.SECP521R1}[t]()
+        priv = ec.derive_private_key(scalar, curve)
+        pn = priv.public_key().public_numbers()
+        size = (curve.key_size + 7) // 8
+        if size - (getattr(pn, coord).bit_length() + 7) // 8 != octets:
+            raise Machinery("scalar %d on %s: %s is not %d octets short" % (scalar, t, coord, octets))
+        r = Root(t, "derive_private_key(%d) [%s %d octets short]" % (scalar, coord.upper(), octets), priv=priv)
+        r.pub_id = _pub_id(priv)
+        r.short = octets
         return r
 
     def _tmp(self, tag):
